@@ -275,7 +275,7 @@ func (g *cgGen) doc(thorough bool) *cgDoc {
 		for j := 0; j < nProp; j++ {
 			pr := cgProp{Name: g.distinct(usedP, g.ident)}
 			pr.TypeID = g.pick(cgTypeIDs)
-			if g.r.Intn(4) == 0 {
+			if g.r.Intn(8) == 0 {
 				pr.TypeID = "ref"
 			}
 			if pr.TypeID == "ref" {
@@ -618,7 +618,7 @@ func cgExpectedType(typeID string) string {
 }
 
 // cgCheckStruct returns "" if struct s is a correct rendering of object o.
-func cgCheckStruct(o cgObj, s cgStruct, structOfObj map[string]string) string {
+func cgCheckStruct(o cgObj, s cgStruct, structOfObj map[string][]string) string {
 	if !strings.EqualFold(o.Name, s.Name) {
 		return fmt.Sprintf("struct %s is not named after object %s", s.Name, o.Name)
 	}
@@ -641,8 +641,13 @@ func cgCheckStruct(o cgObj, s cgStruct, structOfObj map[string]string) string {
 		if p.TypeID == "ref" {
 			if want, ok := structOfObj[p.RefID]; ok {
 				// the referenced object has a struct in this file: the field must be typed by it
-				if f.Type != want {
-					return fmt.Sprintf("object %s property %s: reference to %s is typed %s, but the struct of that object is called %s", o.Name, p.Name, p.RefID, f.Type, want)
+				// (several candidates only when object names differ in nothing but letter case)
+				hit := false
+				for _, w := range want {
+					hit = hit || f.Type == w
+				}
+				if !hit {
+					return fmt.Sprintf("object %s property %s: reference to %s is typed %s, but the struct of that object is called %s", o.Name, p.Name, p.RefID, f.Type, strings.Join(want, " or "))
 				}
 			} else if !strings.EqualFold(f.Type, p.RefID) {
 				return fmt.Sprintf("object %s property %s: reference to %s is typed %s", o.Name, p.Name, p.RefID, f.Type)
@@ -670,7 +675,7 @@ func cgCheckDecls(objs []cgObj, ignore *string, decls []cgStruct) []string {
 		out = append(out, fmt.Sprintf("%d non-ignored objects but %d structs", len(want), len(decls)))
 	}
 	// which struct stands for which object (by name up to case; exact when unambiguous)
-	structOfObj := map[string]string{}
+	structOfObj := map[string][]string{}
 	for _, o := range want {
 		var cands []string
 		for _, s := range decls {
@@ -679,13 +684,13 @@ func cgCheckDecls(objs []cgObj, ignore *string, decls []cgStruct) []string {
 			}
 		}
 		if len(cands) > 0 {
-			structOfObj[o.Name] = cands[0]
+			structOfObj[o.Name] = cands
 		}
 	}
 	used := make([]bool, len(decls))
 	for _, o := range want {
 		found := false
-		firstWhy := ""
+		firstWhy, countWhy := "", ""
 		for i, s := range decls {
 			if used[i] || !strings.EqualFold(s.Name, o.Name) {
 				continue
@@ -696,11 +701,19 @@ func cgCheckDecls(objs []cgObj, ignore *string, decls []cgStruct) []string {
 				found = true
 				break
 			}
-			if firstWhy == "" {
+			// with several candidates (names equal up to case) prefer the most specific reason
+			if len(s.Fields) != len(o.Props) {
+				if countWhy == "" {
+					countWhy = why
+				}
+			} else if firstWhy == "" {
 				firstWhy = why
 			}
 		}
 		if !found {
+			if firstWhy == "" {
+				firstWhy = countWhy
+			}
 			if firstWhy == "" {
 				firstWhy = "no struct for object " + o.Name
 			}
@@ -738,7 +751,7 @@ func codegenCmd(a Args) {
 		panic(err)
 	}
 	thorough := a.Tier == "thorough"
-	nDocs, reps := 150, 3
+	nDocs, reps := 150, 4
 	if thorough {
 		nDocs, reps = 3000, 6
 	}
@@ -814,6 +827,11 @@ func codegenCmd(a Args) {
 	}
 	if a.Replay != "" {
 		cgReplay(a.Replay, &cases, addGroup)
+		docs := map[int]bool{}
+		for _, c := range cases {
+			docs[c.DocNo] = true
+		}
+		nDocs = len(docs)
 	} else {
 		const file = "schema_input.yaml"
 		for n := 0; n < nDocs; n++ {
